@@ -7,6 +7,7 @@ online for past formulas, pastified online for bounded-future formulas; dense: h
 return identical values; the online run is also compared with the Lean mirror of the
 dictionary-and-memo interpreter (`runProgram`).
 """
+import re
 from .. import common, formula as F, impl, disc, modular as M
 from ..common import same_vals
 from ..engine import Violation, Ctx
@@ -60,12 +61,19 @@ def explore(ctx, rng, count):
     cases = []
     for _ in range(count):
         mon = rng.choice(["offd", "ond", "ond", "past"])
-        cases.append(M.gen_case(rng, ALLOW[mon], mon))
-    online = [c for c in cases if c["monitor"] == "ond"]
+        c_ = M.gen_case(rng, ALLOW[mon], mon)
+        if rng.random() < 0.2:
+            # an interface-aware semantics (modular = inlined "for every monitor kind"): which variables a named sub-expression
+            # mentions must not depend on how often and where it is referenced
+            c_["ia"] = [rng.choice(["outRob", "inRob", "outVac", "inVac"]), {v: rng.choice(["input", "output"]) for v in c_["vars"]}]
+        cases.append(c_)
+    online = [c for c in cases if c["monitor"] == "ond" and not c.get("ia")]
     ms = dict(zip(map(id, online), M.model_prog(online)))
     for c in cases:
         ctx.evaluations += 1
         ctx.count("monitor:" + c["monitor"])
+        if c.get("ia"):
+            ctx.count("interface-aware:" + c["ia"][0])
         ctx.count("style:" + c["style"])
         ctx.count("subspecs=%d" % (len(c["defs"]) - 1))
         if c["consts"]:
@@ -83,7 +91,66 @@ def explore(ctx, rng, count):
             ctx.diffs.append(d)
 
 
+def named_term_stream(ctx, rng, count, fixed=None):
+    """A named ARITHMETIC sub-expression over variables of one interface class, referenced twice: once combined with a variable of
+    the other class, once alone inside a predicate - under the interface-aware semantics (which variables a node mentions decides
+    how a predicate is evaluated; it must not depend on the other references to the named expression).  Modular vs inlined."""
+    from . import c06
+    for _ in range(1 if fixed else count):
+        if fixed:
+            sub, main_m, main_i, sem, io, mon, n, data = (fixed[k] for k in ("sub", "main", "inlined", "semantics", "io", "monitor", "n", "data"))
+        else:
+            k1, k2 = rng.choice([1.0, 2.0, 0.5]), rng.choice([0.0, 1.0, 5.0])
+            term = rng.choice(["(%s * x)" % k1, "(x + %s)" % k1, "(abs(x))", "(x - %s)" % k1])
+            op = rng.choice(["+", "-", "*"])
+            first = "((t %s y) >= %s)" % (op, k2) if rng.random() < 0.7 else "((y %s t) >= %s)" % (op, k2)
+            second = rng.choice(["(once[0,1](t <= %s))", "(t <= %s)", "(historically(t >= %s))", "(not(t <= %s))"]) % rng.choice([0.0, 1.0, 5.0])
+            comb = rng.choice(["and", "or"])
+            body = "(%s %s %s)" % ((first, comb, second) if rng.random() < 0.7 else (second, comb, first))
+            sub, main_m, main_i = "t = " + term, "out = " + body, "out = " + re.sub(r"\bt\b", lambda _m: term, body)
+            sem = rng.choice(["outRob", "inRob", "outVac", "inVac"])
+            io = {"x": "input", "y": "output"} if rng.random() < 0.5 else {"x": "output", "y": "input"}
+            mon = rng.choice(["offd", "ond"])
+            n = rng.randint(3, 7)
+            data = {v: [rng.choice([-2.0, -1.0, 0.0, 1.0, 2.0, 3.0, 6.0]) for _ in range(n)] for v in ("x", "y")}
+
+        def run(text, extra):
+            def go():
+                spec = impl.make_spec(mon, text, ["x", "y"], extra_decl=extra, semantics=c06.SEMS[sem], io=io)
+                spec.parse()
+                if mon == "offd":
+                    ds = {"time": list(range(n))}
+                    ds.update({v: list(data[v]) for v in data})
+                    return [p_[1] for p_ in spec.evaluate(ds)]
+                return [spec.update(i, [(v, data[v][i]) for v in ("x", "y")]) for i in range(n)]
+            return impl.guarded(go)
+        m_, i_ = run(sub + ";\n" + main_m, ["t"]), run(main_i, [])
+        rep = {"kind": "named-term", "sub": sub, "main": main_m, "inlined": main_i, "semantics": sem, "io": io, "monitor": mon, "n": n,
+               "data": data, "impl_modular": m_, "impl_inlined": i_}
+        ctx.evaluations += 1
+        ctx.count("stream:named-term/" + sem)
+        bad = None
+        if m_[0] != i_[0]:
+            bad = "modular %r, inlined %r" % (m_[:2], i_[:2])
+        elif m_[0] == "ok" and not same_vals(m_[1], i_[1]):
+            bad = "the modular specification returns %r, its inlined form %r" % (m_[1], i_[1])
+        if bad:
+            v = Violation("%s monitor, %s semantics, io=%r: %s: %s; %s" % (mon, sem, io, bad, sub, main_m), rep, stream="mod/named-term")
+            if fixed:
+                return v
+            ctx.violations.append(v)
+            if len(ctx.violations) >= 3:
+                return None
+        else:
+            ctx.traces_validated += 1
+            ctx.nontrivial.add((sub, main_m, sem, str(io), str(data)))
+    return None
+
+
 def replay(ctx, obj):
+    if obj.get("kind") == "named-term":
+        v = named_term_stream(Ctx(ctx.id, ctx.tier, ctx.seed), None, 1, fixed=obj)
+        return (v is None), (v.what if v else "modular and inlined specifications agree on the replayed case")
     if obj.get("kind") == "twin-units":
         from . import c12
         return c12.replay_twin(ctx, obj, "C09")
@@ -91,13 +158,15 @@ def replay(ctx, obj):
         from .. import dense
         return dense.replay_modular(ctx, obj)
     c = M.case_of_rep(obj)
-    m = M.model_prog([c])[0] if c["monitor"] == "ond" else None
+    m = M.model_prog([c])[0] if c["monitor"] == "ond" and not c.get("ia") else None
     v, d = check_case(Ctx(ctx.id, ctx.tier, ctx.seed), c, m)
     return (v is None), (v.what if v else "modular and inlined specifications agree on the replayed case")
 
 
 def run(ctx):
     explore(ctx, ctx.subrng("mod"), ctx.budget(900, 8000))
+    if not ctx.violations:
+        named_term_stream(ctx, ctx.subrng("named-term"), ctx.budget(150, 1000))
     if not ctx.violations:
         try:
             from .. import dense
